@@ -31,8 +31,8 @@ type KnownFinding struct {
 	ID          string   `json:"id"`
 	Status      string   `json:"status"` // known | fixed
 	Property    string   `json:"property"`
-	Properties  []string `json:"properties,omitempty"` // further properties the finding belongs to
-	Obligations []string `json:"obligations"` // exact obligation names this finding explains
+	Properties  []string `json:"properties,omitempty"`          // further properties the finding belongs to
+	Obligations []string `json:"obligations"`                   // exact obligation names this finding explains
 	Patterns    []string `json:"obligation_patterns,omitempty"` // regular expressions over obligation names
 	What        string   `json:"what"`
 	Witness     string   `json:"witness"`          // the failing input, in words
